@@ -137,7 +137,8 @@ def pow (s e : Nat) (base p : Numeric) : EvalM Numeric :=
   else if p.value.den ≠ 1 then err .illegalPowerNonInteger s e
   else
     let n := p.value.num
-    if !base.unit.isEmpty && (n < -2147483648 || n > 2147483647) then err .badArgument s e
+    if !base.unit.isEmpty && (n < -2147483648 || n > 2147483647 || !Compound.powFits base.unit n) then
+      err .badArgument s e
     else
       let unit := if base.unit.isEmpty then base.unit else Compound.checkedPow base.unit n
       if n = 0 then pure { value := 1, unit := unit }
